@@ -46,14 +46,15 @@ LEVEL_TEXT = ("Kernel-checked theorems, for all well-formed files of any size, a
               "read_file_using_fast_csv_reader / IndexedStringImporter / read_csv_with_schema_dict: (1) one kernel call on any window "
               "of the supported regime (complete records followed by any prefix of the next record, entered at any record boundary) "
               "reports exactly the complete records, resumes at the start of the unfinished one, touches no memory outside its "
-              "arrays and terminates; (2) the whole import equals the reference records when the file is read in one window and no "
-              "staging buffer fills; (3) include/exclude select exactly the named columns. The driver's loop over several windows and "
-              "the buffer regrowth are validated by exhaustive small-scope and random differential execution of model, code and "
-              "reference parser, not proved.")
-LEVEL_NOTE = ("window_chunking_unobservable and regrowth_unobservable are stated in Props/C05.lean (comment) but only their kernel half "
-              "(fsm_window_eq_spec, fsm_split_at_record_end) is proved; the induction over driver iterations and the early return on a "
-              "full buffer are supported by the correspondence run only. The model mirrors the code with fix patches D26, NC05a, "
-              "NC05b, D27 applied.")
+              "arrays and terminates; (2) the whole driver loop, for every chunk_row_size in the supported regime and any number of "
+              "windows, yields exactly the reference records column by column (so the result does not depend on chunk_row_size), "
+              "provided no staging buffer fills; (3) include/exclude select exactly the named columns. The runs in which a staging "
+              "buffer fills and is enlarged (regrowth) are validated by exhaustive small-scope and random differential execution of "
+              "model, code and reference parser, not proved.")
+LEVEL_NOTE = ("window_chunking_unobservable is proved as window_chunking_unobservable_partial under two explicit no-regrowth hypotheses "
+              "(every column fits its value budget; no record consists of empty cells only, so the index buffer never fills); "
+              "regrowth_unobservable (and the full statement without those hypotheses) is stated in Props/C05.lean as a comment and "
+              "supported by the correspondence run only. The model mirrors the code with fix patches D26, NC05a, NC05b, D27 applied.")
 TECHNIQUE = "Lean 4 theorems over an executable model + differential correspondence with the real code"
 EXPLANATION = ""
 
